@@ -24,6 +24,24 @@ CLAIMED = {
              "OS file semantics exercised not modelled."),
 }
 
+CLAIMED["C14"] = dict(
+    text="Kernel-checked theorems over a state-machine model of get_next_entry (one Lean step per loop iteration): for every stream, "
+         "marker (length >= 1), buffer size and starting cursor, a call returns the bounds given by the first marker occurrence at/after "
+         "the cursor and the first occurrence at/after its end (or end of stream), independent of the buffer size; repeated calls on a "
+         "generated stream without accidental marker return each entry once with exact bounds, then signal the end; content mode returns "
+         "the entries. Tied to /repo by differential execution on streams over the marker's own bytes, all return modes and cursors.",
+    design="§6 C14", technique="Lean 4 proof (loop invariants over the buffered search, induction on fuel) + model/implementation correspondence",
+    note="Trusted: Lean kernel and standard axioms; hand-written model validated by correspondence sampling; bytearray.find and file "
+         "read/seek/tell semantics modelled. Regression witness of the repaired defect (F12) is a theorem on the pinned loop.")
+CLAIMED["C19"] = dict(
+    text="Kernel-checked theorems over a model of tamper_file/tamper_dir driven by an arbitrary oracle stream (every seed and probability): "
+         "length preserved, bytes outside the --header region untouched, erasure mode writes only zeros, differing <= count <= scanned <= "
+         "region, all-False outcomes (probability 0) leave the file identical, directory = each file once in walk order, single file = "
+         "one-file directory. Tied to /repo by replaying the recorded random stream of real runs (function level and CLI) into the model.",
+    design="§6 C19", technique="Lean 4 proof (induction over positions/blocks/files for an arbitrary random oracle) + recorded-stream correspondence",
+    note="Trusted: Lean kernel and standard axioms; model validated by sampling; assumed of `random`: random() >= 0 and randint within "
+         "bounds; OS r+b file semantics, recwalk and argparse exercised not modelled.")
+
 NOT_YET = {}
 
 props = [json.loads(l) for l in open(os.path.join(VERIF, "properties.jsonl"))]
